@@ -135,6 +135,112 @@ def falls_off_the_end(func):
     return returns(func.node.body) is False
 
 
+def partial_key_caches(repo, func):
+    """a value computed from the function's inputs is kept in MODULE-LEVEL state (a global rebound under `global`, or an entry
+    stored into a module-level container) and reused later, while the test that decides on reuse / the key it is filed
+    under leaves out an input the value depends on: a later call with a different value of that input is handed the
+    stale result.  Inputs = parameters and attribute chains of self, followed through local assignments.
+    -> [(line, global name, missing input, text of the reuse test or key)]"""
+    tree = repo.trees.get(func.relpath)
+    if tree is None:
+        return []
+    module_names = set()
+    for st in tree.body:
+        if isinstance(st, (ast.Assign, ast.AnnAssign)):
+            for t in (st.targets if isinstance(st, ast.Assign) else [st.target]):
+                if isinstance(t, ast.Name):
+                    module_names.add(t.id)
+    fn = func.node
+    params = {a.arg for a in fn.args.posonlyargs + fn.args.args + fn.args.kwonlyargs} - {'self', 'cls'}
+    declared_global = {n_ for x in ast.walk(fn) if isinstance(x, ast.Global) for n_ in x.names}
+    local_defs = {}
+    for x in ast.walk(fn):
+        if isinstance(x, ast.Assign) and len(x.targets) == 1 and isinstance(x.targets[0], ast.Name) and x.targets[0].id not in declared_global:
+            local_defs.setdefault(x.targets[0].id, []).append(x.value)
+
+    def dotted(e):
+        if isinstance(e, ast.Name):
+            return e.id
+        if isinstance(e, ast.Attribute):
+            b = dotted(e.value)
+            return None if b is None else b + '.' + e.attr
+        return None
+
+    def inputs_of(e, depth=0, seen=None):
+        seen = set() if seen is None else seen
+        out = set()
+        for x in ast.walk(e):
+            d = dotted(x) if isinstance(x, (ast.Name, ast.Attribute)) else None
+            if d is None:
+                continue
+            root = d.split('.')[0]
+            if root in params:
+                out.add(root)
+            elif root == 'self' and '.' in d:
+                out.add(d)
+            elif isinstance(x, ast.Name) and root in local_defs and root not in seen and depth < 3:
+                seen.add(root)
+                for v in local_defs[root]:
+                    out |= inputs_of(v, depth + 1, seen)
+        # keep only the longest chains (self.a and self.a.b -> self.a.b)
+        return {d for d in out if not any(o != d and o.startswith(d + '.') for o in out)}
+
+    def mentions(e):
+        out = set()
+        for x in ast.walk(e):
+            d = dotted(x) if isinstance(x, (ast.Name, ast.Attribute)) else None
+            if d is not None:
+                out.add(d)
+                if isinstance(x, ast.Name) and x.id in local_defs:
+                    for v in local_defs[x.id]:
+                        for y in ast.walk(v):
+                            d2 = dotted(y) if isinstance(y, (ast.Name, ast.Attribute)) else None
+                            if d2 is not None:
+                                out.add(d2)
+        # maximal chains only: self.a.b mentions self.a.b, not self.a
+        return {d for d in out if not any(o != d and o.startswith(d + '.') for o in out)}
+
+    parent = {}
+    for n in ast.walk(fn):
+        for ch in ast.iter_child_nodes(n):
+            parent[id(ch)] = n
+    out = []
+    for x in ast.walk(fn):
+        g = key = val = None
+        if isinstance(x, ast.Assign) and len(x.targets) == 1:
+            t = x.targets[0]
+            if isinstance(t, ast.Name) and t.id in declared_global and t.id in module_names:
+                g, val = t.id, x.value
+            elif isinstance(t, ast.Subscript) and isinstance(t.value, ast.Name) and t.value.id in module_names and t.value.id not in local_defs and t.value.id not in params:
+                g, key, val = t.value.id, t.slice, x.value
+        elif isinstance(x, ast.Call) and isinstance(x.func, ast.Attribute) and x.func.attr == 'setdefault' and isinstance(x.func.value, ast.Name) \
+                and x.func.value.id in module_names and x.func.value.id not in local_defs and len(x.args) == 2:
+            g, key, val = x.func.value.id, x.args[0], x.args[1]
+        if g is None:
+            continue
+        if isinstance(val, ast.Constant):
+            continue
+        deps = inputs_of(val)
+        if not deps:
+            continue
+        covered = set()
+        texts = []
+        if key is not None:
+            covered |= mentions(key)
+            texts.append('key ' + ast.unparse(key))
+        p = parent.get(id(x))
+        node = x
+        while p is not None and p is not fn:
+            if isinstance(p, ast.If) and any(isinstance(y, ast.Name) and y.id == g for y in ast.walk(p.test)):
+                covered |= mentions(p.test)
+                texts.append('test ' + ast.unparse(p.test))
+            node, p = p, parent.get(id(p))
+        missing = sorted(d for d in deps if not any(c == d or c.startswith(d + '.') or d.startswith(c + '.') for c in covered if c != 'self'))
+        if missing:
+            out.append((x.lineno, g, missing[0], '; '.join(texts) or 'unconditionally'))
+    return out
+
+
 def crossed_arguments(func, calls):
     """a call of a repository function in which two positional arguments are each named after the OTHER one's parameter
     (f(filename, options) called as f(options, filename); n1 / n2 exchanged) and neither is named after its own: the two
